@@ -247,3 +247,65 @@ package logqlengine
 //@ lemma[C19.line-filter-complement] forall(0, 2, func(l int) bool { return specMatch(logql.OpEq, l == 1, anyString(0), anyRegexp(0), anyString(1)) == !specMatch(logql.OpNotEq, l == 1, anyString(0), anyRegexp(0), anyString(1)) && specMatch(logql.OpRe, l == 1, anyString(0), anyRegexp(0), anyString(1)) == !specMatch(logql.OpNotRe, l == 1, anyString(0), anyRegexp(0), anyString(1)) })
 //@ lemma[C19.always-true-filter-is-identity] specMatch(logql.OpEq, false, "", anyRegexp(0), anyString(1))
 //@ lemma[C19.comparator-complements] forall(0, 1000000, func(a int) bool { return forall(0, 1000000, func(b int) bool { return LtComparator[uint64]{}.Compare(uint64(a), uint64(b)) == !GteComparator[uint64]{}.Compare(uint64(a), uint64(b)) && GtComparator[uint64]{}.Compare(uint64(a), uint64(b)) == !LteComparator[uint64]{}.Compare(uint64(a), uint64(b)) && EqComparator[uint64]{}.Compare(uint64(a), uint64(b)) == !NotEqComparator[uint64]{}.Compare(uint64(a), uint64(b)) }) })
+
+// ---- C10 / C11: aggregated label sets
+
+//@ scope aggregated_labels.go
+
+//@ ghost func digestStream(d *xxhash.Digest) string
+//@ ghost func lenPrefix(n int) string
+
+//@ spec func inLabels(labels []logql.Label, name string) bool {
+//@   return exists(0, len(labels), func(j int) bool { return string(labels[j]) == name })
+//@ }
+//@ spec func hasEntry(a *aggregatedLabels, name string) bool {
+//@   return exists(0, len(a.entries), func(j int) bool { return a.entries[j].name == name })
+//@ }
+// A label is visible (takes part in the series identity and in the output) iff it is an entry,
+// is not excluded by `without`, and passes the `by` restriction when there is one.
+//@ spec func visibleLabel(a *aggregatedLabels, name string) bool {
+//@   return hasEntry(a, name) && !has(a.without, name) && (a.by == nil || has(a.by, name))
+//@ }
+
+//@ func (*aggregatedLabels).forEach
+//@   assume_pure cb
+//@   capture c = call(cb, 0)
+//@   loop 0 invariant rangeindex+1 <= len(a.entries)
+//@   loop 0 body_ensures[callback-iff-visible] c_called == (!has(a.without, e.name) && (a.by == nil || has(a.by, e.name)))
+//@   loop 0 body_ensures[callback-gets-entry]  c_called ==> c_a0 == e.name && c_a1 == e.value
+//@   loop 0 body_ensures[entries-in-order]     same(e, a.entries[rangeindex])
+
+//@ func buildSet
+//@   logical name string
+//@   modifies r[*]
+//@   ensures[union]       has(ret0, name) == (old(has(r, name)) || exists(0, len(input), func(j int) bool { return string(input[j]) == name }))
+//@   ensures[nil-only-if-nothing] ret0 == nil ==> r == nil && len(input) == 0
+//@   ensures[same-map-unless-nil] r != nil ==> same(ret0, r)
+//@   loop 0 modifies r[*]
+//@   loop 0 invariant rangeindex+1 <= len(input) && r != nil
+//@   loop 0 invariant has(r, name) == (old(has(r, name)) || exists(0, rangeindex+1, func(j int) bool { return string(input[j]) == name }))
+
+//@ func (*aggregatedLabels).By
+//@   logical name string
+//@   modifies nothing
+//@   ensures[type]      typeis[*aggregatedLabels](ret0)
+//@   ensures[intersect] visibleLabel(as[*aggregatedLabels](ret0), name) == (visibleLabel(a, name) && inLabels(labels, name))
+
+//@ func (*aggregatedLabels).Without
+//@   logical name string
+//@   modifies nothing
+//@   ensures[type]     typeis[*aggregatedLabels](ret0)
+//@   ensures[subtract] visibleLabel(as[*aggregatedLabels](ret0), name) == (visibleLabel(a, name) && !inLabels(labels, name))
+
+//@ func (*LabelSet).Range
+//@   inline
+//@   loop 0 modifies *
+
+//@ func newAggregatedLabels
+//@   ensures[fields]  same(ret0.by, by) && same(ret0.without, without)
+//@   ensures[canonical-order] forall(0, len(ret0.entries)-1, func(j int) bool { return ret0.entries[j].name <= ret0.entries[j+1].name })
+
+// The bytes fed to the hash for one visible (name, value) pair frame both strings: the name is
+// terminated (label names contain no NUL), the value is preceded by its length.
+//@ func (*aggregatedLabels).Key$1
+//@   ensures[framed-pair] digestStream(h) == old(digestStream(h)) + k + "\x00" + lenPrefix(len(v)) + v
